@@ -760,12 +760,25 @@ fn gen_mtu_boundary(seed: u64, tier: &Tier, shard: usize, nshards: usize, emit: 
         for kv in &kvs {
             lens.push(1 + 2 + kv.0.len() + 2 + kv.1.len() + 8 + 1);
         }
-        let cut = rng.range(2, lens.len() as u64) as usize;
+        // optionally a third member with nothing but a max version to offer: it comes last
+        // (highest max version among the members unknown to the peer) as a header + SetMaxVersion
+        // (high-entropy id, generation, address, watermark and max version: the block must stay uncompressed)
+        let m1_name = rand_string(&mut rng, 14, 2);
+        let m1 = ChitchatId::new(m1_name, rng.next() >> 1, SocketAddr::from(([rng.next() as u8 | 1, rng.next() as u8, rng.next() as u8, rng.next() as u8], rng.next() as u16)));
+        let with_m1 = rng.chance(1, 2);
+        if with_m1 {
+            let gc1 = rng.next() >> 2;
+            let copy1 = PCopy { heartbeat: 3, last_gc: gc1, max_version: gc1 + (rng.next() >> 3), kvs: vec![] };
+            emit(plist("setcopyq", ["0".to_string(), p_id(&m1), p_pcopy(&copy1)]));
+            lens.push(1 + id_len(&m1) + 16);
+            lens.push(9);
+        }
+        let cut = if with_m1 && rng.chance(2, 3) { lens.len() } else { rng.range(2, lens.len() as u64) as usize };
         let p_cut: usize = 4 + lens[..cut].iter().sum::<usize>();
         let delta = [0i64, 1, 2, 3, 3, 2, 1, 4, -1][rng.below(9) as usize];
         let room = (p_cut as i64 - delta).max(100) as usize;
         let target = 65_503usize - room;
-        let mut dlen: usize = 2 + entry_len(&me) + entry_len(&m0);
+        let mut dlen: usize = 2 + entry_len(&me) + entry_len(&m0) + if with_m1 { entry_len(&m1) } else { 0 };
         let mut e = 0u32;
         while dlen + 100 <= target {
             let id = ChitchatId::new(format!("t{e}"), 0, SocketAddr::from(([10, 9, (e / 250) as u8, (e % 250) as u8], 1)));
@@ -784,8 +797,44 @@ fn gen_mtu_boundary(seed: u64, tier: &Tier, shard: usize, nshards: usize, emit: 
     }
 }
 
+/// Small deltas whose last op is a `SetMaxVersion` (or a single key-value), with budgets one or two
+/// bytes around the exact fit: small blocks are stored uncompressed, so an accounting error of a
+/// single byte shows up in the size of the delta itself.
+fn gen_mtu_small(seed: u64, tier: &Tier, shard: usize, nshards: usize, emit: &mut dyn FnMut(String)) {
+    let ncases = if tier.thorough { 320 } else { 48 };
+    for i in 0..ncases {
+        if i % nshards != shard {
+            continue;
+        }
+        let mut rng = Rng::new(seed ^ ((i as u64) << 21) ^ 0x5A11);
+        emit(format!("(case mtu-s{i})"));
+        emit(new_cmd(0, &node_id(1), "c", 100, DEFAULT_FD, "(pred none)", &[]));
+        let name_len = rng.range(60, 180) as usize;
+        let m = ChitchatId::new(rand_string(&mut rng, name_len, 2), rng.below(3), SocketAddr::from(([10, 0, 0, 9], 7000)));
+        let gc = rng.range(1, 40);
+        let id_len = 2 + m.node_id.len() + 8 + 7;
+        let hdr = 1 + id_len + 16;
+        let (copy, peer_max, last) = if rng.chance(2, 3) {
+            // nothing but a max version to offer
+            (PCopy { heartbeat: 2, last_gc: gc, max_version: gc + rng.range(1, 9), kvs: vec![] }, gc, 9usize)
+        } else {
+            let vl = rng.range(0, 30) as usize;
+            let v = rand_string(&mut rng, vl, 2);
+            let l = 1 + 2 + 1 + 2 + v.len() + 8 + 1;
+            (PCopy { heartbeat: 2, last_gc: gc, max_version: gc + 1, kvs: vec![("k".to_string(), v, gc + 1, 0u8, 0u64)] }, gc, l)
+        };
+        emit(plist("setcopyq", ["0".to_string(), p_id(&m), p_pcopy(&copy)]));
+        let digest = vec![VNodeDigest { chitchat_id: m.clone(), heartbeat: 1, last_gc_version: gc, max_version: peer_max }];
+        let exact = 4 + hdr + last;
+        for mtu in (exact - 3)..=(exact + 2) {
+            emit(plist("delta", ["0".to_string(), p_digest(&digest), mtu.to_string(), "(ids)".to_string()]));
+        }
+    }
+}
+
 pub fn gen_mtu(seed: u64, tier: &Tier, shard: usize, nshards: usize, emit: &mut dyn FnMut(String)) {
     gen_mtu_boundary(seed, tier, shard, nshards, emit);
+    gen_mtu_small(seed, tier, shard, nshards, emit);
     let ncases = if tier.thorough { 640 } else { 64 };
     for i in 0..ncases {
         if i % nshards != shard {
@@ -1010,9 +1059,17 @@ pub fn gen_cluster(seed: u64, tier: &Tier, shard: usize, nshards: usize, emit: &
             1 => "(pred nokey x647261696e)".to_string(),  // "drain"
             _ => "(pred none)".to_string(),
         };
+        let twins = rng.chance(1, 5);
         for k in 0..n {
-            let cluster = if two_clusters && k % 2 == 1 { ["c2", "", "C", "c"][rng.below(3) as usize] } else { "c" };
-            emit(new_cmd(k, &node_id(k as u16 + 1), cluster, grace, &fd, &pred, &[("boot", "1")]));
+            let cluster = if two_clusters && k % 2 == 1 { ["c2", "", "C", "c ", " c", "cc"][rng.below(6) as usize] } else { "c" };
+            // "twins": another member with the node id of node 0 — a restart under a new generation,
+            // or the same node id and generation advertised at another address
+            let mut id = node_id(k as u16 + 1);
+            if twins && k == n - 1 {
+                let first = node_id(1);
+                id = ChitchatId::new(first.node_id.clone(), if rng.chance(1, 2) { 0 } else { 1 }, id.gossip_advertise_addr);
+            }
+            emit(new_cmd(k, &id, cluster, grace, &fd, &pred, &[("boot", "1")]));
             if rng.chance(1, 3) {
                 // nobody holds a receiver of this node's live-members channel between two reads
                 emit(format!("(watchmode {k} fresh)"));
